@@ -3,6 +3,10 @@
 import json, subprocess
 
 CLAIMS = {
+ "C03": dict(
+   text="crypto.ValidateSignatureValues accepts exactly 1<=r<N, 1<=s<=N/2, v in {0,1} (functional postcondition, for all inputs), with N and N/2 proved from the package initialiser and shown never to be reassigned (SSA scan).",
+   note="Partial: only the signature-value predicate is under contract so far; recoverPlain, SignerV1.Sender chain-id guard, Sender cache and the Qi signature obligations are not yet. ECDSA/Schnorr/MuSig2/keccak are external and assumed.",
+   design="4 (C03)", technique="contract-based deductive verification: functional postcondition over big.Int models, VCs from go/ssa, z3/cvc5"),
  "C05": dict(
    text="All-or-nothing postconditions on the real opETX and opConvert (every exit: one status word replaces the operands; status 1 => exactly one ETX appended and the sender debited exactly value+fee; status 0 => no ETX and no debit; no credit ever), with balances tracked as ghost debit/credit counters through the vm.StateDB interface contract. Discharged per exit and per clause by SMT from go/ssa of the working tree, for all stack contents, balances and fork numbers.",
    note="Assumed (trusted) contracts: vm.StateDB.SubBalance/AddBalance ghost accounting, ContractRef.Address is a function of the reference, CanTransfer/CheckIfEtxEligible hooks are read-only, rlp.DecodeBytes frame; library models for uint256/big.Int. Not yet under contract: CreateETX/Call, UnwrapQi, ClaimCoinbaseLockup, receipt hand-off.",
